@@ -4,7 +4,7 @@ from __future__ import annotations
 
 import random
 
-from amaranth import Module
+from amaranth import Module, Signal
 from amaranth.sim import Simulator
 from transactron.utils.amaranth_ext.elaboratables import OneHotRoundRobin, RoundRobin
 
@@ -42,6 +42,8 @@ def run_onehot(rec, rnd, count, cycles, case):
     dut = OneHotRoundRobin(count)
     m = Module()
     m.submodules.dut = dut
+    keep = Signal()  # the sync domain exists even if the arbiter under test registers nothing
+    m.d.sync += keep.eq(~keep)
     sim = Simulator(m)
     sim.add_clock(1e-6)
     kind, gen = patterns(rnd, count, cycles)
@@ -90,6 +92,8 @@ def run_binary(rec, rnd, count, cycles, case):
     dut = RoundRobin(count=count)
     m = Module()
     m.submodules.dut = dut
+    keep = Signal()  # the sync domain exists even if the arbiter under test registers nothing
+    m.d.sync += keep.eq(~keep)
     sim = Simulator(m)
     sim.add_clock(1e-6)
     kind, gen = patterns(rnd, count, cycles)
